@@ -332,11 +332,33 @@ def orbit_histories(chk, max_len, alphabet, label):
         alts = picked
         key = 'C20/(b)orbit-histories/' + pr[:70]
         chk.fail(key, '%s after the history %s%s (also after %s)' % (pr, list(hist), (' with ' + fmt_env(env)) if env else '', [list(h) for h in alts[1:]]),
-                 [_replay_history(h) for h in alts], env, replay_timeout=600)
+                 [_replay_history(h, env) for h in alts[:4]], env, replay_timeout=600)
     return nhist
 
 
-def _replay_history(hist):
+def _period_variants(env):
+    """Concrete period assignments to try in a history replay: generic values, plus the coincidences the solver's model shows
+    (two symbolic periods equal, or close without being equal -- what an isclose-style comparison needs), plus coincidences with the
+    period a correction returns (not a model variable: always tried)."""
+    out = [('generic periods', [])]
+    vals = {i: (env or {}).get('per%d' % i) for i in range(3)}
+    for i in range(3):
+        for j in range(i):
+            a, b = vals[i], vals[j]
+            if a is None or b is None:
+                continue
+            if a == b:
+                out.append(('period %d = period %d' % (i, j), [(i, j, 0.0)]))
+            elif abs(float(a) - float(b)) <= 1e-8 + 1e-4 * abs(float(b)):
+                out.append(('period %d close to but not equal to period %d' % (i, j), [(i, j, 4e-6)]))
+    out.append(('period 0 = the corrected period', [(0, 'pstar', 0.0)]))
+    out.append(('initial period = the corrected period', [(2, 'pstar', 0.0)]))
+    out.append(('period 0 close to but not equal to the corrected period', [(0, 'pstar', 4e-6)]))
+    out.append(('initial period close to but not equal to the corrected period', [(2, 'pstar', 4e-6)]))
+    return out[:6]
+
+
+def _replay_history(hist, env=None):
     """Run the history on a real halo orbit and compare its last observation with a freshly constructed orbit in the same logical
     state (same initial state and period).  Tried with generic periods and with period 0 equal to the corrected period."""
     return '''
@@ -345,6 +367,7 @@ from hiten.system import System
 from hiten.algorithms.types.options import ConvergenceOptions, CorrectionOptions
 from hiten.algorithms.corrector.options import OrbitCorrectionOptions
 HIST = %r
+VARIANT_SPECS = %r
 s = System.from_bodies("earth", "moon"); l1 = s.get_libration_point(1)
 def opts(k):
     return OrbitCorrectionOptions(base=CorrectionOptions(convergence=ConvergenceOptions(tol=(1e-6, 1e-12)[k], max_attempts=50, max_delta=1e-2)), forward=1)
@@ -393,14 +416,21 @@ def trial(PER):
     a = observe(o, last, last_prop); b = observe(f, last, None)
     return (not equal(a, b)), a[0], b[0]
 scout = mk(); scout.correct(options=opts(0)); pstar = float(scout.period)
+BASE = [2.7, 3.1, 2.9]
+VARIANTS = []
+for name, spec in VARIANT_SPECS:          # spec: list of (index, 'pstar' | other index, relative offset)
+    PER = list(BASE)
+    for i, ref, off in spec:
+        PER[i] = (pstar if ref == 'pstar' else PER[ref]) * (1.0 + off)
+    VARIANTS.append((name, PER))
 out = {}
-for name, PER in (("generic periods", [2.7, 3.1, 2.9]), ("period 0 = the corrected period", [pstar, 3.1, 2.9]), ("initial period = the corrected period", [2.7, 3.1, pstar])):
+for name, PER in VARIANTS:
     bad, ka, kb = trial(PER)
     out[name.replace(" ", "_").replace("=", "is")] = "%%s: object gives %%s, fresh twin gives %%s, differ=%%s" %% (name, ka, kb, bad)
     if bad:
         _verdict(True, **out)
 _verdict(False, **out)
-''' % (list(hist),)
+''' % (list(hist), _period_variants(env))
 
 
 # --------------------------------------------------------------------------- (c) histories on the real centre-manifold service
